@@ -37,3 +37,21 @@ LEVEL_TEXT = {
         "technique": "property-based testing (rapidcheck choice tape, fork-per-case real runtime, ledger + hook monitor oracles)",
     },
 }
+
+PROPS["C02"] = {
+    "targets": [rt("props/C02_lost_wakeup.cpp", 500, 70, 8000, 900)],
+    "rule": "case = scheduler config (1..8 workers, 8 policies, CPU restriction) with a MANDATORY perturbation plan at the hand-off sites "
+            "(cv wait between unlock and suspend, do_yield, after the coroutine returned / store_state, set_thread_state before CAS / before "
+            "schedule, set_active_state helper, notify, join, exit callbacks) x 1..6 ping-pong channels (facility in semaphore / cv+mutex / "
+            "cv_any+spinlock / latch / event / thread::join / sync_wait; waker on a task or a plain OS thread; 1..60 rounds; hints; delays); "
+            "non-trivial iff >=1 wake-up hit the active-target path (set_thread_state found the target still active and scheduled the "
+            "set_active_state helper task), observed through hooks; distinct by hash of the decoded case",
+    "floor": {"quick": 30, "thorough": 300},
+    "assumptions": ["interleavings sampled with deliberate window widening, not enumerated",
+                    "deadlock verdicts are state-based (quiescence detector), watchdog expiry is inconclusive"],
+}
+LEVEL_TEXT["C02"] = {
+    "text": "Generated ping-pong programs over every blocking facility built on the suspend/resume path run on the real runtime with mandatory, generated perturbation plans that widen exactly the windows the property names; the oracle is the property's own second sentence: a state-based quiescence detector (all pools: active=pending=staged=0, suspended>0, activation counter unchanged over 6 samples, no external actor) while the harness knows the wake-up was issued, plus round-completion counts. Exploration, because schedules of the real scheduler can only be sampled.",
+    "note": "Window widening is by sleeping/spinning at hook points; interleavings between hook points are reached only through OS preemption (CPU restriction helps). The set_thread_state helper path is confirmed hit in the non-trivial cases by hook counters.",
+    "technique": "property-based testing (rapidcheck choice tape, fork-per-case runtime, hook perturbation plans, state-based deadlock oracle)",
+}
